@@ -196,6 +196,9 @@ theorem C20_inst :
     Gen.csvLineTerminatorEscapes = [("\\r", "\r"), ("\\n", "\n"), ("\\t", "\t")] ∧
     Gen.csvWriterOpenMode = "w" ∧ Gen.csvWriterOpenNewline = "" ∧ Gen.csvWriterOpenErrors = "surrogateescape" ∧
     Gen.csvReaderOpenNewline = "" ∧ Gen.csvReaderOpenErrors = "surrogateescape" ∧
+    Gen.csvReaderFieldSteps = ["self.fields = fields.split(',')", "self.fields = next(self.reader)",
+      "self.fields = [normalize_fieldname(col) for col in self.fields]",
+      "self.desc = RecordDescriptor('csv/reader', [('string', col) for col in self.fields if not col.startswith('_')])"] ∧
     Gen.csvHeaderTest = "not self.desc or self.desc != r._desc" ∧
     Gen.csvHeaderBody = ["self.desc = r._desc",
       "self.writer = csv.DictWriter(self.fp, rdict, lineterminator=self.lineterminator)",
@@ -213,7 +216,7 @@ theorem C20_inst :
       "self.fp.write(buf.encode(errors='surrogateescape') + b'\\n')"] ∧
     Gen.reprOuterFormat = "<{} {}>" ∧ Gen.reprOuterArg0 = "self._desc.name" ∧ Gen.reprItemFormat = "{}={!r}" ∧
     Gen.reprItemArgs = ["k", "getattr(self, k)"] ∧ Gen.reprIterates = "self._desc.fields" :=
-  ⟨rfl, rfl, rfl, rfl, rfl, rfl, rfl, rfl, rfl, rfl, rfl, rfl, rfl, rfl, rfl, rfl, rfl, rfl, rfl, rfl, rfl, rfl, rfl, rfl, rfl, rfl, rfl, rfl⟩
+  ⟨rfl, rfl, rfl, rfl, rfl, rfl, rfl, rfl, rfl, rfl, rfl, rfl, rfl, rfl, rfl, rfl, rfl, rfl, rfl, rfl, rfl, rfl, rfl, rfl, rfl, rfl, rfl, rfl, rfl⟩
 
 -- Non-vacuity: the hypotheses are met by concrete non-trivial inputs, and the model computes what CPython does.
 namespace C20_nonvacuous
